@@ -295,6 +295,18 @@ func runC09(c *ctx) error {
 		for _, num := range []string{"1000000", "1700000000", "12345678.5", "0.00001"} {
 			add("genuine:numeric-header-member-reformatted-by-the-decoder", world.CompactJWS(fmt.Sprintf(`{"alg":"%s","iat":%s}`, k.Type.Alg(), num), payloads0, k), matching, "accept")
 		}
+		// header members with a null value are members: a genuine JWS carrying one verifies, and adding one to the header of a
+		// genuine JWS (signature kept) is an alteration
+		for _, extra := range []string{`"crit":null`, `"kid":null`, `"x5u":null,"zzz":null`} {
+			hN := fmt.Sprintf(`{"alg":"%s",%s}`, k.Type.Alg(), extra)
+			add("genuine:null-valued-header-member", world.CompactJWS(hN, payloads0, k), matching, "accept")
+			gen := strings.Split(world.CompactJWS(fmt.Sprintf(`{"alg":"%s"}`, k.Type.Alg()), payloads0, k), ".")
+			add("tamper:null-valued-header-member-added", rawURL.EncodeToString([]byte(hN))+"."+gen[1]+"."+gen[2], matching, "reject")
+		}
+		// "alg" present but not a string: decided by the model (presence is all the JWS layer asks for), never a panic
+		for _, v := range []string{`null`, `1`, `true`, `[]`, `{}`, `""`, `1.5e3`} {
+			add("header:alg-not-a-string", world.CompactJWS(fmt.Sprintf(`{"alg":%s}`, v), payloads0, k), matching, "")
+		}
 		for hi, hdr := range headers {
 			for pi, pl := range payloads {
 				if !thorough && (hi+pi)%2 == 1 {
